@@ -932,6 +932,9 @@ class Interp:
                         return self.global_name(orig)
                     finally:
                         self.frames.pop()
+            if dotted and extract.module_relpath(dotted + '.' + orig):
+                # `from package import submodule`
+                return Module(dotted + '.' + orig)
             if nm in PYTYPES:
                 return PyType(nm)
             if nm in EXC_NAMES:
@@ -1397,6 +1400,13 @@ class Interp:
                 if attr == 'pi':
                     from .trans import pi_const
                     return pi_const(self.ctx)
+            rel = extract.module_relpath(base.name) if base.name.startswith('openmdao') else None
+            if rel:
+                m2 = extract.load(rel, self.overrides.get(rel))
+                if attr in m2.funcs:
+                    return FuncRef(m2, None, m2.funcs[attr])
+                if attr in m2.classes:
+                    return ClassRef(m2, attr)
             return ModAttr(base, attr)
         if isinstance(base, ModAttr):
             return ModAttr(base, attr)
@@ -1728,6 +1738,11 @@ class Interp:
             if v.arr.ndim != 1:
                 raise Unsupported('.flat of n-d array as value')
             v = v.arr
+        if isinstance(idx, tuple) and len(idx) == 1 and a.ndim == 1:
+            idx = idx[0]
+        if isinstance(v, SCompact) and isinstance(idx, SWhere) and a.ndim == 1 and v.mask is idx.mask:
+            # a[np.where(m)] = <compaction over the same m>
+            return self.arr_setitem(a, idx.mask, v)
         if isinstance(v, SCompact) and not (isinstance(idx, SArr) and v.mask is idx):
             raise Unsupported('store of compaction')
         if isinstance(v, (Opaque, SObj)) or v is None:
